@@ -24,7 +24,7 @@ F_DIGEST, F_SIZE, F_INFO, F_CONTENT = "plain_text_digest.bin", "plain_text_size.
 ALGS = ["sha-256", "sha-384", "sha-512", "shake128", "shake256"]
 SIZES = [0, 1, 15, 16, 17, 4096, 65537]
 KIDS = [0, 23, 24, 255, 256, 65535, 65536, 2 ** 31, 2 ** 32 - 1]
-KEY_NAME = "enc_key"
+KEY_NAME = "enc_key.gen2"          # a key name with a dot; decoy keys sit under the names a suffix-replacing lookup would find
 
 
 def enc_script():
@@ -252,6 +252,10 @@ def write_key(tmp, key):
     os.makedirs(kd, exist_ok=True)
     with open(os.path.join(kd, KEY_NAME + ".bin"), "wb") as fh:
         fh.write(key)
+    decoy = bytes(b ^ 0xFF for b in key)
+    for other in (KEY_NAME.split(".")[0] + ".bin", KEY_NAME, KEY_NAME.split(".")[0]):
+        with open(os.path.join(kd, other), "wb") as fh:
+            fh.write(decoy)
     return kd
 
 
